@@ -1,12 +1,15 @@
 /-
   C08 — comments and whitespace never change meaning.
-  Proved so far: the order facts about the generated rule table that trivia handling relies
-  on (string literals are tried before the comment rules; the block-comment end rule is
-  lazy), and — from the generic lexer theorems — that trivia pieces never contribute
-  tokens.  The full round-trip `lex (render toks tr₁) = lex (render toks tr₂)` is tied by
-  correspondence (see DESIGN.md §6 C08, stated there as not yet proved).
+  Proved: any sequence of well-formed trivia (white-space runs, `//` comments with their
+  newline, `/* */` comments spanning lines with arbitrary bodies not containing `*/`) in
+  front of the remaining input is invisible to the lexer (`C08_trivia_prefix_invisible*`,
+  in `C08_trivia.lean`, for the rule tables regenerated from /repo); the order facts about
+  the rule table that trivia handling relies on; trivia pieces never contribute tokens.
+  Not proved: that a token's lexeme followed by trivia lexes as that token (the other half
+  of the full round-trip), which is tied by correspondence.
 -/
 import Pyab.Proofs.LexNoSkip
+import Pyab.Properties.C08_trivia
 import Pyab.Generated.LexRules
 namespace Pyab.Properties
 open Pyab
